@@ -237,6 +237,18 @@ def u_primitive(ctx):
             p.primitive.height = 3.0
         fresh = mk()
         ctx.eq("%s: analytic volume follows the edit" % kind, p.volume, fresh.volume)
+        if ctx.params.get("place", "none") == "none":
+            # closed forms of the smooth solid (independent of the tessellation), density 1
+            pi = Fraction(float(np.pi))
+            rb = Fraction(b)
+            if kind == "cylinder":
+                mass = pi * rb * rb * 3
+                exp = [[mass * (3 * rb * rb + 9) / 12, 0, 0], [0, mass * (3 * rb * rb + 9) / 12, 0], [0, 0, mass * rb * rb / 2]]
+            else:
+                mass = pi * rb * rb * rb * 4 / 3
+                exp = [[mass * rb * rb * 2 / 5, 0, 0], [0, mass * rb * rb * 2 / 5, 0], [0, 0, mass * rb * rb * 2 / 5]]
+            ctx.close("%s: analytic volume = closed form (1e-9 relative)" % kind, p.volume / float(mass), 1, 1e-9)
+            ctx.close("%s: analytic inertia tensor = closed form of the smooth solid (1e-9 relative)" % kind, np.asarray(nparr.base(p.moment_inertia) if ctx.sym else p.moment_inertia, dtype=object if ctx.sym else float) / float(mass), np.array(exp, dtype=object) / mass if ctx.sym else np.array([[float(x) for x in r] for r in exp]) / float(mass), 1e-9)
     ctx.concrete_equal("%s: faces of the edited primitive = faces of a fresh one" % kind, np.asarray(p.faces).tolist(), np.asarray(fresh.faces).tolist())
     ctx.eq("%s: vertices of the edited primitive = vertices of a fresh one" % kind, p.vertices, fresh.vertices)
     ctx.eq("%s: bounds follow" % kind, p.bounds, fresh.bounds)
